@@ -3,8 +3,8 @@ Line-protocol driver for the battery distribution model (C01, C02).
 Input line : {"power":rat,"exp":nat,"failed":rat|null,
               "groups":[{"bats":[{"id":int,"cap":rat,"soc":rat,"soc_lo":rat,"soc_hi":rat,"il":rat,"el":rat,"eu":rat,"iu":rat}],
                          "invs":[{"id":int,"il":rat,"el":rat,"eu":rat,"iu":rat}]}]}     (invs in frozenset iteration order)
-Output line: {"dist":{"<inverter id>":rat},"rem":rat,"flags":[str],"consistent":bool,"admitted":bool,
-              "mgr":{"succeeded":rat,"failed":rat,"excess":rat}}
+Output line: {"dist":{"<inverter id>":rat},"rem":rat,"flags":[str],"consistent":bool,"admitted":bool (pool-advertised bounds),
+              "manager_admits":bool (BatteryManager._check_request), "mgr":{"succeeded":rat,"failed":rat,"excess":rat}}
            | {"error":"ValueError","consistent":bool,"admitted":bool}
 -/
 import Frequenz.Model.Distribution
@@ -36,7 +36,8 @@ def runCase (j : Json) : Except String Json := do
   let gs ← (← getArr j "groups").toList.mapM parseGroup
   let inp : Input := { power := ← getRat j "power", exp := ← getNat j "exp", groups := gs }
   let failed ← getOptRat j "failed"
-  let dom := [("consistent", Json.bool (decide (Consistent inp))), ("admitted", Json.bool (decide (Admitted inp)))]
+  let dom := [("consistent", Json.bool (decide (Consistent inp))), ("admitted", Json.bool (decide (Admitted inp))),
+    ("manager_admits", Json.bool (decide (ManagerAdmits inp)))]
   match distribute inp with
   | none => return Json.mkObj ([("error", Json.str "ValueError")] ++ dom)
   | some o =>
